@@ -11,6 +11,7 @@ loop); the model's counter for that call list (op `calls`) must equal the report
 from __future__ import annotations
 
 import json
+import math
 
 import numpy as np
 
@@ -128,7 +129,8 @@ def check_several_objects(chk, r, n):
         ta, tb, tc = smcrun.Target(dims), smcrun.Target(dims), smcrun.Target(dims)
         fa, fb, fc = (smcrun.make_proposal(dims, seed=100 * i + k) for k in range(3))
         mk = lambda K, t, f, **kw: K(log_likelihood=t.log_likelihood, log_prior=t.log_prior, dims=dims, prior_flow=f, xp=np, parameters=["a", "b"], **kw)   # noqa: E731
-        order = ("ABab", "AaBb", "ABba", "AaBCcb")[i % 4]
+        # (a lower-case letter twice: the SAME object runs again - the count is the total over everything its likelihood was asked)
+        order = ("ABab", "AaBb", "ABba", "AaBCcb", "Bbb", "ABbab", "Aaa")[i % 7]
         objs, tg = {}, {"A": ta, "B": tb, "C": tc}
         case = {"level": "several_objects", "order": order, "i": i}
         chk.count("several_objects:" + order)
@@ -161,6 +163,69 @@ def check_several_objects(chk, r, n):
             chk.fail("run total", case, repr(exc)[:300], {"clause": "raise", "level": "several_objects"})
 
 
+def check_nonfinite_draws(chk):
+    """a proposal that now and then emits a draw with an infinite or NaN coordinate (a saturating flow): whatever the sampler does with such
+    rows, the count is the number of points the likelihood was actually handed, and every set it is handed carries the prior of its points"""
+    from aspire.flows.base import Flow
+    from aspire.samplers.importance import ImportanceSampler
+
+    for nsn in ("numpy", "torch"):
+        for bad_every in (0, 7, 3):
+            xp = ns.get_xp(nsn)
+
+            class P(Flow):
+                pass
+
+            P.xp = xp
+
+            class P(P):   # noqa: F811
+                def __init__(self):
+                    super().__init__(2, device=None)
+                    self.g = np.random.default_rng(5)
+
+                def _lp(self, x):
+                    x = ns.to_np(x)
+                    with np.errstate(all="ignore"):
+                        v = (-0.5 * (x / 2.0) ** 2 - math.log(2.0) - 0.5 * math.log(2 * math.pi)).sum(-1)
+                    return np.where(np.isfinite(v), v, -np.inf)
+
+                def log_prob(self, x):
+                    return xp.asarray(self._lp(x))
+
+                def sample_and_log_prob(self, n):
+                    x = 2.0 * self.g.normal(size=(n, 2))
+                    if bad_every:
+                        x[::bad_every, 0] = np.inf
+                        x[1::2 * bad_every, 1] = np.nan
+                    return xp.asarray(x), xp.asarray(self._lp(x))
+
+                def sample(self, n):
+                    return self.sample_and_log_prob(n)[0]
+
+                def fit(self, x, **kw):
+                    return None
+
+            t = smcrun.Target(2, half=5.0)
+            case = {"level": "nonfinite_draws", "ns": nsn, "bad_every": bad_every}
+            chk.count("nonfinite_draws")
+            chk.case(None, json.dumps(case))
+            s = ImportanceSampler(log_likelihood=t.log_likelihood, log_prior=t.log_prior, dims=2, prior_flow=P(), xp=xp, parameters=["a", "b"])
+            try:
+                with np.errstate(all="ignore"):
+                    s.sample(60)
+            except Exception as exc:   # noqa
+                chk.count("nonfinite_draws:run_raised:" + type(exc).__name__)
+                continue
+            bad = [c for c in t.calls if c[0] == "L" and not (c[2] and c[3])]
+            if bad:
+                chk.fail("the sample set handed to the likelihood carries the log-prior of exactly those points", case,
+                         f"{len(bad)} likelihood call(s) without the matching prior", {"clause": "attached", "level": "nonfinite_draws"})
+            if int(s.n_likelihood_evaluations) != t.points_like:
+                chk.fail("reported evaluations = points the likelihood was asked to evaluate", case,
+                         f"reported {int(s.n_likelihood_evaluations)}, the likelihood was handed {t.points_like} points ({bad_every and 'some' or 'no'} draws with a non-finite coordinate)",
+                         {"clause": "count", "level": "nonfinite_draws"})
+
+
 def run(chk: core.Check):
     r = np.random.default_rng(chk.seed + 17017)
     quick = chk.tier == "quick"
@@ -183,8 +248,9 @@ def run(chk: core.Check):
     for cfg in big:
         chk.count("large_population_runs")
         check_run(chk, cfg, [], [])
+    check_nonfinite_draws(chk)
     check_aspire_level(chk, r, 9 if quick else 90)
-    check_several_objects(chk, r, 8 if quick else 40)
+    check_several_objects(chk, r, 14 if quick else 56)
     for (case, reported, like_sizes), rep in zip(keep, drv.batch(lines)):
         if not rep.ok:
             raise core.HarnessError(rep.err)
